@@ -14,9 +14,9 @@
 (* tour case for the real generator.                                        *)
 (*                                                                           *)
 (* Request shapes (GenRequest): besides the numbered bases (linked file     *)
-(* sets) every plan whose modes lie in ShapeModes and whose length is       *)
-(* MaxPlan is emitted for every custom-option shape at the sites            *)
-(* ShapeSites.  On the specification TLC checks that the shapes fall into   *)
+(* sets) every plan whose modes lie in ShapeModes, whose permutations lie   *)
+(* in ShapePerms and whose length is MaxPlan is emitted for every           *)
+(* custom-option shape at the sites ShapeSites.  On the specification TLC checks that the shapes fall into   *)
 (* the two classes order free / not order free as characterised, and - for  *)
 (* every plan and every assignment of visiting orders to its runs - that    *)
 (* the history oracle accepts the abstract sorting generator always and     *)
@@ -25,7 +25,7 @@
 (***************************************************************************)
 EXTENDS GenHistory, GenRequest, Json
 
-CONSTANTS Modes, Perms, Digs, MaxPlan, Bases, Par0, ShapeSites, ShapeModes
+CONSTANTS Modes, Perms, Digs, MaxPlan, Bases, Par0, ShapeSites, ShapeModes, ShapePerms
 
 VARIABLES plan, hist
 Init == plan = <<>> /\ hist = <<>>
@@ -63,7 +63,7 @@ EmitBases == Canon => \A b \in Bases :
           LET e == [op |-> "plan", base |-> [set |-> b, seed |-> 0, par |-> Par0 + 5 * b], steps |-> plan'] IN
           PrintT("@@" \o ToJson(e @@ [exp |-> Expect(e)]))
 TourShapes == {s \in OptShapes : s.site \in ShapeSites}
-ShapePlan(p) == Len(p) = MaxPlan /\ \A i \in 1..Len(p) : p[i].mode \in ShapeModes
+ShapePlan(p) == Len(p) = MaxPlan /\ \A i \in 1..Len(p) : p[i].mode \in ShapeModes /\ p[i].perm \in ShapePerms
 EmitShapes == (Canon /\ ShapePlan(plan')) => \A s \in TourShapes :
           LET e == [op |-> "plan", base |-> [set |-> 0 - 2, seed |-> 0, par |-> ParOf(s, Par0), opt |-> s], steps |-> plan'] IN
           PrintT("@@" \o ToJson(e @@ [exp |-> Expect(e)]))
